@@ -27,6 +27,7 @@ import Mathlib.Tactic.Linarith
 import Mathlib.Tactic.Positivity
 import Mathlib.Tactic.FieldSimp
 import Mathlib.Tactic.LinearCombination
+import Mathlib.Logic.Equiv.Defs
 
 namespace Onsager.Var
 
@@ -288,12 +289,13 @@ theorem Stationary_scale (l : List (Jump ι K)) (c : K) (ξ : ι → K) (hs : St
   rw [e, List.sum_map_mul_left, this, mul_zero]
 
 /-- displace site `i` by `s i` (projected): every jump vector changes by `s dst − s src` -/
-def Jump.shift (s : ι → K) (a : Jump ι K) : Jump ι K := { a with d := a.d + s a.dst - s a.src }
+def Jump.shift (s t : ι → K) (a : Jump ι K) : Jump ι K :=
+  { a with d := a.d + s a.dst - s a.src, e := a.e + t a.dst - t a.src }
 
 omit [Fintype ι] [DecidableEq ι] [LinearOrder K] [IsStrictOrderedRing K] in
 /-- VAR-gauge. -/
-theorem Q_gauge (l : List (Jump ι K)) (s η : ι → K) :
-    Q (l.map (Jump.shift s)) (fun i => η i - s i) = Q l η := by
+theorem Q_gauge (l : List (Jump ι K)) (s t η : ι → K) :
+    Q (l.map (Jump.shift s t)) (fun i => η i - s i) = Q l η := by
   unfold Q
   rw [List.map_map]
   congr 2
@@ -303,13 +305,13 @@ theorem Q_gauge (l : List (Jump ι K)) (s η : ι → K) :
   ring
 
 omit [Fintype ι] [LinearOrder K] [IsStrictOrderedRing K] in
-theorem Stationary_gauge (l : List (Jump ι K)) (s ξ : ι → K) (hs : Stationary l ξ) :
-    Stationary (l.map (Jump.shift s)) (fun i => ξ i - s i) := by
+theorem Stationary_gauge (l : List (Jump ι K)) (s t ξ : ι → K) (hs : Stationary l ξ) :
+    Stationary (l.map (Jump.shift s t)) (fun i => ξ i - s i) := by
   intro i
   have := hs i
   rw [sum_filter_eq] at this
   rw [sum_filter_eq, List.map_map]
-  have e : (l.map ((fun a => if a.src = i then flux (fun i => ξ i - s i) a else 0) ∘ Jump.shift s))
+  have e : (l.map ((fun a => if a.src = i then flux (fun i => ξ i - s i) a else 0) ∘ Jump.shift s t))
       = l.map (fun a => if a.src = i then flux ξ a else 0) := by
     apply List.map_congr_left
     intro a _
@@ -320,31 +322,30 @@ theorem Stationary_gauge (l : List (Jump ι K)) (s ξ : ι → K) (hs : Stationa
   rw [e, this]
 
 omit [Fintype ι] [DecidableEq ι] [LinearOrder K] [IsStrictOrderedRing K] in
-theorem rev_perm_shift (l : List (Jump ι K)) (s : ι → K) (hp : (l.map Jump.rev).Perm l) :
-    ((l.map (Jump.shift s)).map Jump.rev).Perm (l.map (Jump.shift s)) := by
-  have : (l.map (Jump.shift s)).map Jump.rev = (l.map Jump.rev).map (Jump.shift s) := by
+theorem rev_perm_shift (l : List (Jump ι K)) (s t : ι → K) (hp : (l.map Jump.rev).Perm l) :
+    ((l.map (Jump.shift s t)).map Jump.rev).Perm (l.map (Jump.shift s t)) := by
+  have : (l.map (Jump.shift s t)).map Jump.rev = (l.map Jump.rev).map (Jump.shift s t) := by
     rw [List.map_map, List.map_map]
     apply List.map_congr_left
     intro a _
     simp only [Function.comp, Jump.shift, Jump.rev]
-    congr 1
-    ring
+    congr 1 <;> ring
   rw [this]
   exact hp.map _
 
 /-- The minimum of `Q` (the transport coefficient) is unchanged by displacing sites inside the
     cell without changing connectivity or rates. -/
 theorem Qmin_gauge (l : List (Jump ι K)) (hp : (l.map Jump.rev).Perm l) (hr : ∀ a ∈ l, 0 ≤ a.r)
-    (s ξ ξ' : ι → K) (hs : Stationary l ξ) (hs' : Stationary (l.map (Jump.shift s)) ξ') :
-    Q (l.map (Jump.shift s)) ξ' = Q l ξ := by
-  have h1 := Q_gauge l s ξ
-  have h2 := Stationary_gauge l s ξ hs
-  have hr' : ∀ a ∈ l.map (Jump.shift s), 0 ≤ a.r := by
+    (s t ξ ξ' : ι → K) (hs : Stationary l ξ) (hs' : Stationary (l.map (Jump.shift s t)) ξ') :
+    Q (l.map (Jump.shift s t)) ξ' = Q l ξ := by
+  have h1 := Q_gauge l s t ξ
+  have h2 := Stationary_gauge l s t ξ hs
+  have hr' : ∀ a ∈ l.map (Jump.shift s t), 0 ≤ a.r := by
     intro a ha
     obtain ⟨b, hb, rfl⟩ := List.mem_map.1 ha
     exact hr b hb
   rw [← h1]
-  exact Q_stationary_unique _ (rev_perm_shift l s hp) hr' _ _ hs' h2
+  exact Q_stationary_unique _ (rev_perm_shift l s t hp) hr' _ _ hs' h2
 
 /-! ### Off-diagonal components: the correction tensor is symmetric -/
 
@@ -412,5 +413,47 @@ theorem D_symm (l : List (Jump ι K)) (hp : (l.map Jump.rev).Perm l) (ξ ζ : ι
     rw [k1, k2]
     linear_combination (-1 : K) * c1 + (1 : K) * c2 + (1 : K) * e1 - (1 : K) * e2
   exact mul_left_cancel₀ h2 this
+
+
+/-! ### Relabelling sites (atom permutations, symmetry operations, equivalent descriptions) -/
+
+def Jump.relabel {κ : Type} (π : ι → κ) (a : Jump ι K) : Jump κ K := ⟨π a.src, π a.dst, a.d, a.r, a.e⟩
+
+omit [Fintype ι] [DecidableEq ι] [LinearOrder K] [IsStrictOrderedRing K] in
+theorem Q_perm (l l' : List (Jump ι K)) (h : l.Perm l') (ξ : ι → K) : Q l ξ = Q l' ξ := by
+  unfold Q
+  rw [(h.map _).sum_eq]
+
+omit [Fintype ι] [DecidableEq ι] [LinearOrder K] [IsStrictOrderedRing K] in
+theorem Q_relabel {κ : Type} (π : ι → κ) (l : List (Jump ι K)) (η : κ → K) :
+    Q (l.map (Jump.relabel π)) η = Q l (fun i => η (π i)) := by
+  unfold Q
+  rw [List.map_map]
+  rfl
+
+/-- VAR-relabel: if relabelling the sites by a bijection `π` carries network `l` onto network `l'`
+    (as multisets of jumps — `l'` may carry rotated displacement projections), the two minima of
+    `Q` coincide.  This is invariance of the transport form under symmetry operations
+    (`u·D·u = (Ru)·D·(Ru)`) and under equivalent descriptions of the same crystal. -/
+theorem Qmin_relabel {κ : Type} [Fintype κ] [DecidableEq κ] (π : ι ≃ κ)
+    (l : List (Jump ι K)) (l' : List (Jump κ K))
+    (hπ : (l.map (Jump.relabel π)).Perm l')
+    (hp : (l.map Jump.rev).Perm l) (hr : ∀ a ∈ l, 0 ≤ a.r)
+    (hp' : (l'.map Jump.rev).Perm l') (hr' : ∀ a ∈ l', 0 ≤ a.r)
+    (ξ : ι → K) (ξ' : κ → K) (hs : Stationary l ξ) (hs' : Stationary l' ξ') :
+    Q l ξ = Q l' ξ' := by
+  have key : ∀ η : κ → K, Q l' η = Q l (fun i => η (π i)) := by
+    intro η
+    rw [← Q_perm _ _ hπ η, Q_relabel]
+  apply le_antisymm
+  · rw [key ξ']
+    exact Q_min l hp hr ξ _ hs
+  · have : Q l ξ = Q l' (fun k => ξ (π.symm k)) := by
+      rw [key]
+      congr 1
+      funext i
+      simp
+    rw [this]
+    exact Q_min l' hp' hr' ξ' _ hs'
 
 end Onsager.Var
